@@ -1,5 +1,8 @@
+import math
+
 import layers
 import raychk
+import roundir
 import switches
 
 
@@ -13,6 +16,10 @@ def check(rep, tier, replay=None):
         "by terms below the tolerance at the largest t that selects them.  A mismatch is a definite violation; agreement along the rays "
         "examined is a necessary condition of the identity for all a (not a proof).  Rounding is not modelled.")
     raychk.run(rep, tier, "C05", ["d2rexp", "d2rinv", "d2rminus", "sqnorm"], 1e-5)
+    rep.explanations.append(
+        "Rule RND (props/roundir.py): first-order rounding-bound interpretation of the d2r_exp / d2r_expinv IR over a grid of angles up to pi - 1e-3 (both sides of every "
+        "switch constant), double, tolerance 1e-5; >= 100x the tolerance is a violation.")
+    roundir.run(rep, tier, "C05", ["d2rexp", "d2rinv"], 1e-5, None, max_angle={"d2rexp": math.pi - 1e-3, "d2rinv": math.pi - 1e-3})
     check_df(rep)
 
 
